@@ -51,7 +51,7 @@ Fixpoint cache_set (c : cache) (k : ckey) (v : cval) : cache :=
 Fixpoint cache_del (c : cache) (k : ckey) : cache :=
   match c with
   | [] => []
-  | (k', v') :: t => if ckey_eqb k' k then t else (k', v') :: cache_del t k
+  | (k', v') :: t => if ckey_eqb k' k then cache_del t k else (k', v') :: cache_del t k
   end.
 
 (* flags: str / int keys; int / bool values *)
